@@ -1642,13 +1642,26 @@ def tls_oracle(case):
     b2 = Buffer(capacity=len(data) + 4096)
     try:
         push(b2, m)
-    except Exception:
-        return None               # decoded values the encoder's API does not accept (None lists): out of the encoder's domain
+    except Exception as e:
+        # <msg>_reencode (proofs/TlsReencodeExt*.v, TlsReencodeCH.v): whatever pull accepts re-encodes without error, except
+        # when an Optional[list] attribute that push iterates unconditionally was left None by the decoder (second disjunct of
+        # certificate_request_reencode / client_hello_reencode; the real push raises TypeError)
+        none_list = ((kind == 1 and None in (m.key_share, m.supported_versions, m.signature_algorithms, m.supported_groups))
+                     or (kind == 13 and m.signature_algorithms is None))
+        if isinstance(e, TypeError) and none_list:
+            TLS_DOMAIN["reencode_none_list_typeerror"] += 1
+            return None
+        return ("decoded TLS message (type %d) does not re-encode: %s" % (kind, type(e).__name__),
+                {"codec": "tls", "rule": "reencode_raise", "message": kind, "exception": type(e).__name__})
+    if len(b2.data) > b.tell():
+        return ("re-encoded TLS message (type %d) is longer than the bytes consumed" % kind, {"codec": "tls", "rule": "reencode_longer", "message": kind})
+    TLS_DOMAIN["reencode_same_bytes" if b2.data == data[:b.tell()] else "reencode_different_bytes"] += 1
     try:
-        m2 = pull(Buffer(data=b2.data))
+        r2 = Buffer(data=b2.data + b"\xaa\xbb")
+        m2 = pull(r2)
     except Exception as e:
         return ("re-encoded TLS message (type %d) does not decode: %s" % (kind, type(e).__name__), {"codec": "tls", "rule": "reencode", "message": kind})
-    if m2 != m:
+    if m2 != m or r2.tell() != len(b2.data):
         return ("decoded TLS message (type %d) does not re-encode to the same value" % kind, {"codec": "tls", "rule": "reencode", "message": kind})
     return None
 
